@@ -53,6 +53,53 @@ CLAIMED = {
              "under the fair tail / use of destroyed primitives are violations.",
         ref="5/C11", technique="TLA+ model checking incl. liveness (TLC) + schedule replay through cooperative scheduler + TLC trace validation",
         note="Trusts TLC, the scheduler/pthread shim (harness/sched), sequential consistency at yield-point granularity; 2-5 threads, programs <= 6 calls."),
+    "C07": dict(
+        text="TLC model-checks VariantValues.tla (3 Variant variables over abstract value trees: last-assigned, copy-equal, "
+             "independence, conversions on a small numeric domain) and CowVariantImpl.tla (inline scalar / shared null / "
+             "ref-counted heap blocks, clone-on-mutable-access, release by type; invariants ref = holders, no use after release, "
+             "refinement); every edge of that state graph and seeded random histories run on three real Variants under ASan and "
+             "every step (value trees, getType, 7 conversions, 3x3 equality matrix) is validated by TLC against VariantValues.",
+        ref="5/C07", technique="TLA+ refinement model checking (TLC) + state-graph replay + TLC trace validation",
+        note="Numbers limited to |n| <= 2^31-1 and halves; 64-bit extremes / double->text only smoke-tested (not claimed); cross-type equality and non-canonical numerals left open in Layer 1."),
+    "C17": dict(
+        category="other",
+        text="Executable specification: FIPS 180-4 SHA-256 and RFC 2104 HMAC written out in TLA+ (16-bit limb arithmetic), validated "
+             "at start-up against the FIPS and RFC 4231 vectors; Sha256Stream.tla models update/finalize/reset as transcribed from "
+             "Sha256.cpp with abstract block sizes and TLC checks the prefix/padding invariants and 'every finalize = "
+             "Blocks(Pad(message))' (chunking independence, reuse). The driver hashes every message length 0..130 (thorough 0..320) "
+             "under all two-way and sampled three-way chunkings with one reused hasher and HMACs over key lengths across the block "
+             "size; TLC recomputes each reference digest and compares every logged digest.",
+        ref="5/C17", technique="executable TLA+ specification evaluated by TLC + trace validation of real digests; TLC model of the streaming state machine",
+        note="Message content from a spec-defined LCG; lengths beyond ~20,000 bytes and the 2^29-byte length-field boundary not reached."),
+    "C18": dict(
+        category="other",
+        text="Executable specification: UTF-8 encode/decode (TLC checks Decode(Encode(cp)) = cp on all 1,114,112 code points), RFC 4648 "
+             "Base64, decimal conversion on 16-bit limb vectors and hex in TLA+; the driver runs Unicode::toString/fromString/length/"
+             "isValid on every code point and all byte strings of length <= 3 on exact-size heap buffers under ASan/UBSan, the "
+             "integer conversions on all boundary values of all four types, fromHex, and fromBase64 on all encodings of <= 3 bytes "
+             "plus hostile length-4 strings; TLC validates every batch against the spec functions (Layer 1 = what the property "
+             "promises; implementation-shaped expectations only count as drift).",
+        ref="5/C18", technique="executable TLA+ specification evaluated by TLC + exhaustive/sampled trace validation; ASan/UBSan for the bounds clause",
+        note="isValid is a structural check per Unicode.hpp (overlongs / > U+10FFFF left open); toX on non-canonical text and double conversions not decided."),
+    "C19": dict(
+        text="TLC checks Path.tla (lexical meaning of paths; reference relative path exists iff lexically possible) and FsModel.tla "
+             "(directories, files, symlinks to an outside tree, one File handle; action properties FailUnchanged, CreateIff, "
+             "UnlinkExact, ReadBack) exhaustively; every path string of length <= 6 and every pair of length <= 3 goes through the "
+             "real path functions and every edge of the FS state graphs plus random histories is replayed in a scratch directory "
+             "under /verif/build with a sentinel outside tree; every step logs result + snapshots of both trees and is validated by "
+             "TLC against the Layer-1 trace specs.",
+        ref="5/C19", technique="TLA+ model checking (TLC) + state-graph replay on a real scratch file system + TLC trace validation",
+        note="The kernel's file system is trusted; operations through directory symlinks, copy/rename onto itself and rename of directories with failIfExists are left open."),
+    "C20": dict(
+        text="TLC checks GetoptImpl.tla (the read/nextChar cursor machine of Process::Arguments: cursor never beyond the terminator, "
+             "refinement of Getopt.tla = POSIX getopt_long conventions, termination) on all vectors of <= 2 words of <= 3-4 characters "
+             "and 3 words of <= 2; the same vectors run on the real Process::Arguments with every string on an exact-size heap block "
+             "under ASan; all command lines of length <= 5 (thorough <= 8) over {a, space, quote, backslash} and a matrix of spawn "
+             "requests (forms x stream masks x env x exit codes x payload sizes around the pipe capacity) go through the real "
+             "Process into an echo child; option sequences, echoed argv/env, exit codes and stream contents are validated by TLC "
+             "against Getopt / CmdLine / Spawn.",
+        ref="5/C20", technique="TLA+ refinement model checking (TLC) + exhaustive replay of argument vectors / command lines + TLC trace validation",
+        note="Quoting rules undocumented in Process.hpp: only lines of the documented form are judged beyond termination; long-option abbreviations not tested."),
 }
 
 PENDING_REASON = "check not built yet in this revision of /verif (planned: see DESIGN.md section 5); not claimed until its machinery runs"
